@@ -39,7 +39,8 @@ type c43Step struct {
 }
 
 type c43Prog struct {
-	Fanout []int     `json:"fanout"` // number of Nodes() at depth 0,1,2 (depth 3 has none)
+	Fanout []int     `json:"fanout"`          // number of Nodes() at depth 0,1,2 (depth 3 has none)
+	Stack  bool      `json:"stack,omitempty"` // a second, pass-through hook is wrapped around the recorded one
 	Steps  []c43Step `json:"steps"`
 }
 
@@ -67,6 +68,7 @@ type c43World struct {
 	seq    int
 	mode   string // behaviour of the hook for the running call
 	fanout []int
+	outer  int // invocations of the outer hook layer (stacked programs)
 }
 
 func (w *c43World) tag(layer string) string {
@@ -214,6 +216,38 @@ var _ rueidis.DedicatedClient = (*c43Ded)(nil)
 // ---- hook ---------------------------------------------------------------------------------------
 
 type c43Hook struct{ w *c43World }
+
+// c43Outer is a second hook layer that only counts and passes through.
+type c43Outer struct{ w *c43World }
+
+func (h *c43Outer) Do(client rueidis.Client, ctx context.Context, cmd rueidis.Completed) rueidis.RedisResult {
+	h.w.outer++
+	return client.Do(ctx, cmd)
+}
+func (h *c43Outer) DoMulti(client rueidis.Client, ctx context.Context, multi ...rueidis.Completed) []rueidis.RedisResult {
+	h.w.outer++
+	return client.DoMulti(ctx, multi...)
+}
+func (h *c43Outer) DoCache(client rueidis.Client, ctx context.Context, cmd rueidis.Cacheable, ttl time.Duration) rueidis.RedisResult {
+	h.w.outer++
+	return client.DoCache(ctx, cmd, ttl)
+}
+func (h *c43Outer) DoMultiCache(client rueidis.Client, ctx context.Context, multi ...rueidis.CacheableTTL) []rueidis.RedisResult {
+	h.w.outer++
+	return client.DoMultiCache(ctx, multi...)
+}
+func (h *c43Outer) Receive(client rueidis.Client, ctx context.Context, subscribe rueidis.Completed, fn func(msg rueidis.PubSubMessage)) error {
+	h.w.outer++
+	return client.Receive(ctx, subscribe, fn)
+}
+func (h *c43Outer) DoStream(client rueidis.Client, ctx context.Context, cmd rueidis.Completed) rueidis.RedisResultStream {
+	h.w.outer++
+	return client.DoStream(ctx, cmd)
+}
+func (h *c43Outer) DoMultiStream(client rueidis.Client, ctx context.Context, multi ...rueidis.Completed) rueidis.MultiRedisResultStream {
+	h.w.outer++
+	return client.DoMultiStream(ctx, multi...)
+}
 
 func (h *c43Hook) add(e *c43Event) *c43Event {
 	e.Layer = "hook"
@@ -434,6 +468,7 @@ func c43GenCall(rt *rapid.T, dedicated bool) c43Call {
 
 func genC43Prog(rt *rapid.T) c43Prog {
 	p := c43Prog{Fanout: []int{rapid.IntRange(1, 3).Draw(rt, "fan0"), rapid.IntRange(0, 3).Draw(rt, "fan1"), rapid.IntRange(0, 2).Draw(rt, "fan2")}}
+	p.Stack = rapid.IntRange(0, 2).Draw(rt, "stack") == 0
 	want := rapid.IntRange(1, 30).Draw(rt, "calls")
 	hooked := 0
 	for hooked < want {
@@ -478,6 +513,7 @@ type c43Obs struct {
 	GotStream  rueidis.RedisResultStream
 	GotMsgs    []string
 	Mode       rueidis.ClientMode
+	Outer      int // how often the outer (second) hook layer was invoked during the call
 }
 
 type c43CtxKey struct{}
@@ -506,6 +542,10 @@ func c43Exec(p c43Prog) (obs []*c43Obs, w *c43World, outside int, panicked any) 
 	w = &c43World{fanout: p.Fanout, mode: "pass"}
 	root := &c43Inner{c43Core{w: w, name: "root"}, 0}
 	wrapped := rueidishook.WithHook(root, &c43Hook{w: w})
+	if p.Stack {
+		// hooks are composable: wrapping an already hooked client adds a layer that must see every call as well
+		wrapped = rueidishook.WithHook(wrapped, &c43Outer{w: w})
+	}
 	defer func() {
 		if r := recover(); r != nil {
 			panicked = r
@@ -519,6 +559,7 @@ func c43Exec(p c43Prog) (obs []*c43Obs, w *c43World, outside int, panicked any) 
 		o.Ctx = context.WithValue(context.Background(), c43CtxKey{}, idx)
 		w.mode = call.Hook
 		n0 := len(w.events)
+		outer0 := w.outer
 		b := cl.B()
 		fn := func(m rueidis.PubSubMessage) { o.GotMsgs = append(o.GotMsgs, m.Message) }
 		switch call.Method {
@@ -567,6 +608,7 @@ func c43Exec(p c43Prog) (obs []*c43Obs, w *c43World, outside int, panicked any) 
 			_ = ded.SetOnInvalidations(func([]rueidis.RedisMessage) {})
 		}
 		o.Events = append([]*c43Event{}, w.events[n0:]...)
+		o.Outer = w.outer - outer0
 		inCalls += len(o.Events)
 		w.mode = "pass"
 		obs = append(obs, o)
@@ -712,6 +754,9 @@ func c43Check(c *stat.Collector, rt stat.Fataler, p c43Prog, obs []*c43Obs, outs
 		}
 		if kind != "root" {
 			nt = true
+		}
+		if p.Stack && o.Outer != 1 {
+			c.Fail(rt, "C43.outer-hook-exactly-once", fmt.Sprintf("%s went through the outer hook of a doubly wrapped client %d times", where, o.Outer), p)
 		}
 		if len(hooks) != 1 {
 			c.Fail(rt, "C43.hook-exactly-once", fmt.Sprintf("%s went through the hook %d times (inner client reached %d times)", where, len(hooks), len(inners)), p)
